@@ -681,8 +681,9 @@ def route2(ctx, pid):
     for p, st in pq.states(ctx, f):
         if p.exit[0] == "return" and st.ret is not None:
             rets.add(st.ret)
-    w = ("isnot", ("call", BIN + ".get", (("self",), ("p", "key")), ()), C(None))
-    if rets and all(rel_norm(r, True) == w for r in rets):
+    gk = ("call", BIN + ".get", (("self",), ("p", "key")), ())
+    tab = pq.bool_table(ctx, f)
+    if tab is not None and tab == {(frozenset({("isnot", gk, C(None))}), True), (frozenset({("is", gk, C(None))}), False)}:
         ctx.ok("exists:BinaryTrie.exists", f.loc(), "exists(key) is get(key) is not None", rule="SIB1")
     else:
         ctx.bad("exists:BinaryTrie.exists", f.loc(), "exists returns `%s`" % "; ".join(tstr(r) for r in rets), rule="SIB1")
